@@ -1034,6 +1034,10 @@ class PowInt(Contract):
     def use_stub(self, c, x, k, mod=None):
         return isinstance(k, int)      # secret exponents: see PowSecret
 
+    def measure(self, c, x, k, mod=None):
+        """x ** k recurses on k - 1: the exponent is the termination measure"""
+        return k if isinstance(k, int) else 0
+
     def raises(self, c, x, k, mod=None):
         if mod is not None:
             return [(ValueError, True)]
